@@ -79,7 +79,7 @@ def _run_verus(path, extra=(), timeout=900):
            "--num-threads", os.environ.get("VERIF_VERUS_THREADS", "8")] + list(extra)
     t0 = time.time()
     try:
-        p = subprocess.run(cmd, stdout=subprocess.PIPE, stderr=subprocess.PIPE, text=True, timeout=timeout,
+        p = subprocess.run(cmd, stdin=subprocess.DEVNULL, stdout=subprocess.PIPE, stderr=subprocess.PIPE, text=True, timeout=timeout,
                            cwd=os.path.dirname(path))
         out, err, rc = p.stdout, p.stderr, p.returncode
     except subprocess.TimeoutExpired as e:
